@@ -70,6 +70,33 @@ theorem colourEntries_fst (reps : List Rep) :
     exact halt r rep 0
   rw [hrep, flatMap_flatten_eq, flatMap_flatten_eq, List.flatMap_id]
 
+theorem lookupLast_mem {α : Type} (entries : List (Nat × α)) (p : Nat) (c : α)
+    (h : lookupLast entries p = some c) : (p, c) ∈ entries := by
+  unfold lookupLast at h
+  cases hf : entries.reverse.find? (fun e => e.1 == p) with
+  | none => simp [hf] at h
+  | some e =>
+    simp [hf] at h
+    have hm := List.mem_reverse.mp (List.mem_of_find?_eq_some hf)
+    have hp := List.find?_some hf
+    have : e = (p, c) := by
+      obtain ⟨e1, e2⟩ := e
+      simp at hp h
+      simp [hp, h]
+    rw [← this]; exact hm
+
+/-- An assignment of `process_and_assign` points at the streak that contains the object, at its
+position: `reps[r][a][m][pos] = p`. -/
+theorem mem_colourEntries {reps : List Rep} {p : Nat} {c : ColourOf} (h : (p, c) ∈ colourEntries reps) :
+    ∃ rep alt mono, reps[c.1]? = some rep ∧ rep[c.2.1]? = some alt ∧ alt[c.2.2.1]? = some mono ∧
+      mono[c.2.2.2]? = some p := by
+  unfold colourEntries at h
+  simp only [List.mem_flatMap, List.mem_map] at h
+  obtain ⟨⟨rep, r⟩, hr, ⟨alt, a⟩, ha, ⟨mono, m⟩, hm, ⟨q, pos⟩, hq, heq⟩ := h
+  rw [List.mem_zipIdx_iff_getElem?] at hr ha hm hq
+  cases heq
+  exact ⟨rep, alt, mono, hr, ha, hm, hq⟩
+
 /-- The structural facts about the colour encoding of a store. -/
 structure ColourInv (st : Store T) (monos : List Mono) (alts : List Alt) (reps : List Rep)
     (ivs : List Nat) (colour : List ColourOf) : Prop where
@@ -83,6 +110,12 @@ structure ColourInv (st : Store T) (monos : List Mono) (alts : List Alt) (reps :
   intervals_len : ivs.length = reps.length
   intervals_range : ∀ v ∈ ivs, 1 ≤ v ∧ v ≤ maxRepetitionInterval + 1
   colour_len : colour.length = st.objects.length
+  /-- every position stored in a streak is a valid object position -/
+  positions_valid : ∀ rep ∈ reps, ∀ alt ∈ rep, ∀ mono ∈ alt, ∀ q ∈ mono, q < st.objects.length
+  /-- the colour data of object `p` points at the streak that contains `p`, at `p`'s position -/
+  colour_points : ∀ p (c : ColourOf), colour[p]? = some c →
+    ∃ rep alt mono, reps[c.1]? = some rep ∧ rep[c.2.1]? = some alt ∧ alt[c.2.2.1]? = some mono ∧
+      mono[c.2.2.2]? = some p
 
 /-- Colour preprocessing never fails on a well-formed store. -/
 theorem colourOf_spec (st : Store T) (h : st.WF) :
@@ -123,6 +156,15 @@ theorem colourOf_spec (st : Store T) (h : st.WF) :
       rw [hfst]; exact hp)
   refine ⟨monos, encodeAlt monos, reps, ivs, colour, ?_, ?_⟩
   · simp only [colourOf, hm1, hr1, hi1, hd1, hc1, Option.bind_eq_bind, Option.bind_some]
-  · exact ⟨hm2, hm3, ha1, ha2, ha3, hr2, hr3, by simpa using hi2, hi3, by simpa using hc2⟩
+  · refine ⟨hm2, hm3, ha1, ha2, ha3, hr2, hr3, by simpa using hi2, hi3, by simpa using hc2, ?_, ?_⟩
+    · intro rep hrep alt halt mono hmono q hq
+      have : alt ∈ encodeAlt monos := by rw [← hr2]; exact List.mem_flatten.mpr ⟨rep, hrep, halt⟩
+      exact hpos alt this mono hmono q hq
+    · intro p c hpc
+      have hlt : p < colour.length := lt_of_getElem?_eq_some hpc
+      have hlt' : p < (List.range st.objects.length).length := by simpa [hc2] using hlt
+      have := mapM_option_get (lookupLast (colourEntries reps)) (List.range st.objects.length) colour hc1 p hlt'
+      rw [hpc, List.getElem_range] at this
+      exact mem_colourEntries (lookupLast_mem _ _ _ this.symm)
 
 end Rosu.TaikoPre
